@@ -1090,3 +1090,202 @@ REGISTRY["C18"] = FluentFamily("C18",
           "thorough": [(dict(MaxSteps=16, BKinds=("nh", "nhg", "v4", "v6", "mpls"), MaxBuilders=3, Modes=("elected", "all")), 6000, 40)]},
     exh={"quick": [dict(MaxSteps=3, BKinds=("nh",), MaxBuilders=1)], "thorough": [dict(MaxSteps=4, BKinds=("nh",), MaxBuilders=1)]},
     random_cfg={"quick": {"n": 400, "len": 30}, "thorough": {"n": 10000, "len": 40}})
+
+
+# ---------------------------------------------------------------------------
+# client family (C13, C14): GribiClient / GribiClient_MC / GribiClientTrace
+
+def client_cfg(MaxSteps=6, MaxOps=3, FibModes=(True, False), WithFaults=True, WithViolations=True, EmitOn=False, view=True, invariants=True):
+    lines = ["SPECIFICATION MCSpec", "CONSTANTS", f"  MaxSteps = {MaxSteps}", f"  MaxOps = {MaxOps}", f"  FibModes = {tlaset(FibModes)}",
+             f"  WithFaults = {str(WithFaults).upper()}", f"  WithViolations = {str(WithViolations).upper()}", f"  EmitOn = {str(EmitOn).upper()}"]
+    if view:
+        lines.append("VIEW View")
+    if invariants:
+        lines.append("INVARIANTS Conservation NeverTwice ConvergedMeansAnswered")
+    if EmitOn:
+        lines.append("INVARIANTS Emit")
+    lines.append("CHECK_DEADLOCK FALSE")
+    return "\n".join(lines) + "\n"
+
+
+def client_attr(comp, ev, rec):
+    c14 = {"clientHang", "clientQBlockedForever", "clientGoroutineLeft", "clientNotFreshAfterReset", "clientConnect"}
+    both = {"clientAwait", "clientSendErrs", "clientRecvErrs", "clientSent"}
+    if comp in c14:
+        return {"C14"}
+    if comp in both:
+        return {"C13", "C14"}
+    if comp.startswith("client"):
+        return {"C13"}
+    return set()
+
+
+def client_stats(path, prop):
+    segs = events = 0
+    distinct, nontrivial = set(), set()
+    samples = []
+    cur, f = None, None
+
+    def close():
+        nonlocal cur
+        if cur is None:
+            return
+        key = vlib.sha(json.dumps(cur, sort_keys=True))
+        distinct.add(key)
+        ok = (f["results"] > 0 and f["await"] > 0) if prop == "C13" else (f["fault"] > 0 and f["after_fault"] > 0)
+        if ok:
+            nontrivial.add(key)
+            if len(samples) < 3:
+                samples.append(cur[:16])
+        cur = None
+
+    with open(path) as fh:
+        for line in fh:
+            e = json.loads(line)
+            events += 1
+            if e["ev"] == "cnew":
+                close()
+                segs += 1
+                cur, f = [], collections.Counter()
+            if cur is None:
+                continue
+            cur.append({k: v for k, v in e.items() if k != "st"})
+            k = e["ev"]
+            if f["fault"] and k in ("cq", "cawait", "cclose", "creset", "cburst"):
+                f["after_fault"] += 1
+            if k == "cdeliver":
+                f["results"] += 1
+                if (e.get("st") or {}).get("recvErrs", 0) > 0:
+                    f["fault"] += 1
+            elif k == "cawait":
+                f["await"] += 1
+            elif k in ("crecvfail", "crecveof", "cburst", "csendfail", "chang"):
+                f["fault"] += 1
+    close()
+    return dict(segments=segs, events=events, distinct=len(distinct), nontrivial=len(nontrivial), samples=samples)
+
+
+class ClientFamily(RIBFamily):
+    MC_MODULE = "GribiClient_MC"
+    TRACE_MODULE = "GribiClientTrace"
+    TRACE_SPEC = "CTSpec"
+    TRACE_CONSTS = ""
+    VH_CMD = "client-run"
+    FAMILY = "client"
+    RESET_PREFIX = '{"cfg"'
+
+    @staticmethod
+    def cfg(**kw):
+        return client_cfg(**kw)
+
+    @staticmethod
+    def attr(comp, ev, rec):
+        return client_attr(comp, ev, rec)
+
+    @staticmethod
+    def stats(path, prop):
+        return client_stats(path, prop)
+
+    @staticmethod
+    def to_inputs(evs):
+        return [{k: v for k, v in e.items() if k != "st"} for e in evs]
+
+    def vh_args(self, ctx, rc):
+        return ["-random", str(rc["n"]), "-len", str(rc["len"])]
+
+    def rule(self):
+        if self.prop == "C13":
+            return ("one case = one sequence of client calls and server responses driven through the real client with a scripted stub stream; "
+                    "non-trivial = results were delivered and AwaitConverged was called; distinct by sequence")
+        return ("one case = one sequence with a stream fault (failed Send, receive error, clean end, burst of Q calls while Send is stuck) followed by "
+                "further Q / AwaitConverged / Close / Reset calls; non-trivial = a fault occurred and calls were made afterwards")
+
+    def replay(self, ctx, path):
+        raise Infra("client sequences are replayed by re-running the check with the recorded seed")
+
+
+_CL_SIMS = {"quick": [(dict(MaxSteps=14, MaxOps=8), 40, 40)], "thorough": [(dict(MaxSteps=20, MaxOps=10), 1500, 50)]}
+_CL_EXH = {"quick": [dict(MaxSteps=3, MaxOps=2, FibModes=(True,))], "thorough": [dict(MaxSteps=4, MaxOps=3)]}
+for _p in ("C13", "C14"):
+    REGISTRY[_p] = ClientFamily(_p,
+        mc={"quick": [dict(MaxSteps=7, MaxOps=3)], "thorough": [dict(MaxSteps=9, MaxOps=4)]},
+        sims=_CL_SIMS, exh=_CL_EXH,
+        random_cfg={"quick": {"n": 25, "len": 40}, "thorough": {"n": 500, "len": 60}})
+
+
+# ---------------------------------------------------------------------------
+# concurrency family (C11): GribiServerCS / GribiServerCS_MC / GribiServerCSTrace + race detector
+
+class ConcFamily:
+    FAMILY = "conc"
+
+    def __init__(self, prop):
+        self.prop = prop
+
+    def run(self, ctx):
+        res = Result()
+        quick = ctx.tier == "quick"
+        mc_cfg = ("SPECIFICATION MCSpec\nCONSTANTS\n  Sess = {\"s1\",\"s2\",\"s3\"}\n  HiVals = {0,1}\n  LoVals = {1,2}\n"
+                  f"  MaxAnn = {1 if quick else 2}\nINVARIANTS QuiescentConsistent\nPROPERTIES Monotone\nCHECK_DEADLOCK FALSE\n")
+        mc = require_ok(ctx.tlc("GribiServerCS_MC", None, name="mc", workers=vlib.NCPU, cfg_text=mc_cfg, timeout=3000, heap="24g"),
+                        "model checking GribiServerCS_MC")
+        trace = os.path.join(ctx.work, "trace.ndjson")
+        runs = 60 if quick else 1200
+        p = ctx.run_vh(["conc-run", "-runs", str(runs), "-seed", str(ctx.seed), "-out", trace], race=True, timeout=3000)
+        races = p.stderr.count("WARNING: DATA RACE")
+        if p.returncode not in (0, 66):
+            raise Infra(f"vh conc-run failed rc={p.returncode}: " + p.stdout[-1500:] + p.stderr[-3000:])
+        info = {}
+        for line in p.stdout.strip().splitlines():
+            try:
+                info = json.loads(line)
+            except Exception:
+                pass
+        if races:
+            rp = os.path.join(vlib.ROOT, "replays", f"C11-race-{vlib.sha(p.stderr[:4000])}.txt")
+            open(rp, "w").write(p.stderr[:200000])
+            res.violations.append({"replay": rp, "what": f"the race detector reported {races} data race(s) while concurrent sessions, Gets and Flushes ran against one server"})
+        cfg = ('SPECIFICATION CSTSpec\nCONSTANTS\n  TraceFile = "trace.ndjson"\nPOSTCONDITION TraceAccepted\nCHECK_DEADLOCK FALSE\n')
+        run = ctx.tlc("GribiServerCSTrace", None, name="validate", workers=1, cfg_text=cfg, extra_files={trace: "trace.ndjson"}, timeout=3000, heap="12g")
+        matched, total, mism = parse_trace_report(run)
+        if matched != total:
+            raise Infra(f"trace validation stopped at line {matched + 1} of {total}\n" + run.tail())
+        segs = Segments(trace, '{"ev":"concstart"')
+        byseg = {}
+        for (ln, ev, comps) in mism:
+            byseg.setdefault(segs.segment_of(ln), []).append((ln, ev, comps))
+        for s0, items in list(byseg.items())[:5]:
+            ln, ev, comps = items[0]
+            evs = segs.lines(s0, ln)
+            rp = os.path.join(vlib.ROOT, "replays", f"C11-{vlib.sha(json.dumps(evs[-1], sort_keys=True, default=str))}.json")
+            json.dump({"property": "C11", "family": "conc", "seed": ctx.seed, "first_deviation": {"trace_line": ln, "event": ev, "components": comps},
+                       "events": [strip_state(e) for e in evs[-60:]]}, open(rp, "w"), indent=1)
+            res.violations.append({"replay": rp, "what": f"{ev} at trace line {ln}: {comps}"})
+        nseg = len(segs.starts)
+        sample = [strip_state(e) for e in segs.lines(1, 14)]
+        nontriv = 0
+        with open(trace) as fh:
+            cas = 0
+            for line in fh:
+                if line.startswith('{"ev":"concstart"'):
+                    cas = 0
+                elif '"ev":"elecCAS"' in line:
+                    cas += 1
+                    if cas == 3:
+                        nontriv += 1
+        res.coverage = {
+            "states": mc.distinct, "transitions": mc.generated, "traces_validated_against_impl": nseg,
+            "evaluations": total, "distinct_nontrivial": nontriv,
+            "rule": "one case = one concurrent scenario (2-4 Modify sessions on disjoint key ranges, Get readers, optionally a Flush caller) against one real server built with -race; non-trivial = at least three compare-and-set steps of different announcements interleaved in it; every scenario has its own seed",
+            "samples": [sample], "data_races_reported": races, "driver": info, "deviations_reported": len(mism),
+            "model_checking": [{"module": "GribiServerCS_MC", "distinct_states": mc.distinct, "generated": mc.generated, "secs": round(mc.secs, 1)}],
+        }
+        res.assumptions = ["data races are observed through Go's race detector inside the conformance harness (DESIGN 7); schedules are those the Go scheduler produced in this run",
+                           "hook events are ordered by a sequence number taken inside the lock that protects the changed state"]
+        return res
+
+    def replay(self, ctx, path):
+        raise Infra("concurrent scenarios are re-run with ./check C11 --seed <seed>")
+
+
+REGISTRY["C11"] = ConcFamily("C11")
